@@ -49,8 +49,8 @@ def httpScrape (env : HttpParse.Env) (opts : ParseOpts) (ops : StoreOps σ) (hoo
     match handleScrape ops hooks.preScr st req with
     | (log, .error e) => { body := some (HttpWrite.writeError e), isError := true, preLog := log, postLog := [], after := false, store := st, req := none }
     | (log, .ok (ctx, resp)) =>
-      let plog := (runScr hooks.postScr req 0 ctx resp).1
-      { body := some (HttpWrite.writeScrape resp), isError := false, preLog := log, postLog := plog ++ (match (runScr hooks.postScr req 0 ctx resp).2 with | .ok _ => [hooks.postScr.length] | .error _ => []),
+      -- `Logic.AfterScrape` (repair D28): every post-hook runs whether or not an earlier one failed, then the built-in one
+      { body := some (HttpWrite.writeScrape resp), isError := false, preLog := log, postLog := List.range (hooks.postScr.length + 1),
         after := true, store := st, req := none }
 
 /-- the `Udp.Logic` a UDP frontend sees when it sits in front of these hook chains -/
